@@ -426,6 +426,17 @@ def malformed_cases():
         shapes.append([(nm, arg, 'open'), 'A', (low, '', 'close')])
     shapes.append([('if', 'x', 'open'), 'A', ('Else', '', 'open'), 'B', ('if', '', 'close')])
     shapes.append([('try', '', 'open'), 'A', ('EXCEPT', '', 'open'), 'B', ('try', '', 'close')])
+    # names that are commands of other template processors (a web server's own SSI directives, page-template and macro
+    # languages, HTML elements) are unknown tags here, whatever their arguments look like, in every spelling alike
+    foreign = ['config', 'echo', 'exec', 'flastmod', 'fsize', 'include', 'printenv', 'set', 'script', 'style', 'img', 'tal',
+               'metal', 'block', 'extends', 'for', 'while', 'def', 'macro', 'end', 'endif', 'x', 'foo']
+    fargs = ['', 'v', 'var="DATE_LOCAL"', 'virtual="/inc/f.html"', 'y=1', 'expr="1"', 'cmd="ls" x', 'timefmt="%A"']
+    for i, nm in enumerate(foreign):
+        for j, a in enumerate(fargs):
+            if (i + j) % 2 and a not in ('var="DATE_LOCAL"', 'y=1'):
+                continue
+            shapes.append(['A', (nm, a, 'open'), 'B'])
+            shapes.append([('if', 'x', 'open'), 'A', (nm, a, 'open'), 'B', ('if', '', 'close')])
     out = []
     for sh in shapes:
         spell = []
